@@ -40,7 +40,16 @@ def chain_ok(lst):
 
 def wide_ok(lst):
     """non-negative durations and no two events overlap for a positive time (the wide domain of
-    C09_intersect_*_wide; contains chain_ok)"""
+    C09_intersect_*_wide; contains chain_ok).  A zero-length event overlaps nothing for a positive time, so this is:
+    the positive-length events, sorted by start, satisfy end_i <= start_{i+1} (n log n: lists of 10^4 events occur)"""
+    if any(x[1] < 0 for x in lst):
+        return False
+    pos = sorted((x[0], x[0] + x[1]) for x in lst if x[1] > 0)
+    return all(a[1] <= b[0] for a, b in zip(pos, pos[1:]))
+
+
+def wide_ok_pairwise(lst):
+    """the definition, quadratic (cross-checked against wide_ok on the small cases of every run)"""
     return all(x[1] >= 0 for x in lst) and all(
         not (max(a[0], b[0]) < min(a[0] + a[1], b[0] + b[1])) for i, a in enumerate(lst) for b in lst[i + 1:])
 
@@ -183,6 +192,40 @@ def gen_random(rng, n):
         yield (kind, a, b, "unaligned")
 
 
+def gen_large(rng):
+    """Lists longer than any plausible chunk / page / recursion constant (>= 10 001 events on a side; mostly in
+    start order with a few displaced events, so that the model's insertion sort stays linear)."""
+    def chain(n, tag, unit=1000, t0=0):
+        out, t = [], t0
+        for i in range(n):
+            t += rng.choice([0, 0, 1, 2, 3])
+            d = rng.choice([0, 1, 1, 2, 3, 4])
+            out.append((BASE + t * unit, d * unit, DATA[(i + tag) % 3], (tag * 100_000 + i) if i % 7 else None))
+            t += d
+        for _ in range(4):
+            i, j = rng.randrange(n), rng.randrange(n)
+            out[i], out[j] = out[j], out[i]
+        return out, t
+
+    def anyl(n, tag, span, unit=1000):
+        out = []
+        for i in range(n):
+            t = (i * span) // n + rng.randrange(0, 3)
+            out.append((BASE + t * unit, rng.choice([0, 1, 1, 2, 3, 9]) * unit + rng.choice([0, 0, 500]), DATA[(i + tag) % 5],
+                        tag * 100_000 + i))
+        return out
+    na, nb = rng.randrange(10_001, 10_400), rng.randrange(10_001, 10_400)
+    big_a, end_a = chain(na, 1)
+    holes = sorted(rng.sample(range(0, end_a), 8))
+    few = [(BASE + lo * 1000, (hi - lo) * 1000, DATA[k % 3], 900 + k) for k, (lo, hi) in enumerate(zip(holes[::2], holes[1::2]))]
+    big_b, _ = chain(nb, 2, t0=rng.randrange(0, 5))
+    yield ("isect", big_a, few)
+    yield ("isect", few, big_b)
+    yield ("isect", big_a, big_b)
+    yield ("union", anyl(na, 1, 3 * na), anyl(7, 2, 3 * na))
+    yield ("union", anyl(5, 1, 5 * nb), anyl(nb, 2, 5 * nb))
+
+
 # ---------------------------------------------------------------------------------------
 # running the implementation
 
@@ -207,19 +250,23 @@ def errcode(ex):
     return ERRCODE.get(type(ex).__name__, 10)
 
 
-def run_impl(case, Event, fpi, labels):
-    """-> (canonical result, views of the inputs as the implementation received them,
-           modification report or None)"""
-    kind, A, B = case[0], case[1], case[2]
-    unaligned = len(case) > 3
-    a = build(Event, A, unaligned)
-    b = build(Event, B, unaligned)
+def hidden_state(objs):
+    """instance attributes of the Event objects (Event is a dict subclass: what a memo hung on the INSTANCE changes,
+    invisible to ==, to the dict view and to JSON)"""
+    return [(id(o), sorted((k, repr(v)) for k, v in getattr(o, "__dict__", {}).items())) for o in objs]
+
+
+def observe_call(kind, a, b, fn, labels, strict=False):
+    """Run one call fn(a, b) on the given list objects (whatever their history) -> (canonical result, views of the
+    inputs as the implementation received them, modification report or None, the returned list).
+    strict: also report instance attributes appearing on / disappearing from the input Event objects."""
     va = [ev_view(e, labels) for e in a]
     vb = [ev_view(e, labels) for e in b]
     sa, sb = snapshot(a), snapshot(b)
+    ha, hb = (hidden_state(a), hidden_state(b)) if strict else (None, None)
     la, lb = list(a), list(b)
     try:
-        out = fpi.filter_period_intersect(a, b) if kind == "isect" else fpi.period_union(a, b)
+        out = fn(a, b)
         res = [0, [ev_view(e, labels) for e in out]]
     except Exception as ex:  # noqa: BLE001 -- the class is the observable
         res = [1, errcode(ex)]
@@ -228,12 +275,29 @@ def run_impl(case, Event, fpi, labels):
     if len(a) != len(la) or len(b) != len(lb) or any(x is not y for x, y in zip(a, la)) \
             or any(x is not y for x, y in zip(b, lb)):
         mod = "an input list was reordered or resized"
+    elif kind == "union":
+        pass            # period_union: the documented weaker frame (heap-level model, harness/theap.py)
     elif snapshot(a) != sa or snapshot(b) != sb:
         mod = "an input event was modified"
-    elif kind == "isect" and any(o is i for o in out for i in la + lb):
+    elif {id(o) for o in out} & {id(i) for i in la + lb}:
         mod = "an output event is an input object (not a copy)"
-    elif kind == "isect" and any(o.data is i.data and o.data != {} for o in out for i in la + lb):
+    elif {id(o.data) for o in out if o.data != {}} & {id(i.data) for i in la + lb}:
         mod = "an output event shares its data dict with an input event"
+    elif strict and (hidden_state(a) != ha or hidden_state(b) != hb):
+        mod = "an input event was modified (its instance attributes changed: %s)" % sorted(
+            {k for _, kv in hidden_state(a) + hidden_state(b) for k, _ in kv} ^ {k for _, kv in ha + hb for k, _ in kv})
+    return res, va, vb, mod, out
+
+
+def run_impl(case, Event, fpi, labels):
+    """-> (canonical result, views of the inputs as the implementation received them,
+           modification report or None)"""
+    kind, A, B = case[0], case[1], case[2]
+    unaligned = len(case) > 3
+    a = build(Event, A, unaligned)
+    b = build(Event, B, unaligned)
+    fn = fpi.filter_period_intersect if kind == "isect" else fpi.period_union
+    res, va, vb, mod, _ = observe_call(kind, a, b, fn, labels)
     return res, va, vb, mod
 
 
@@ -242,7 +306,26 @@ def run_impl(case, Event, fpi, labels):
 
 
 def measure_common(A, B):
-    """measure of (union of A) ∩ (union of B) by a boundary sweep"""
+    """measure of (union of A) ∩ (union of B) by a boundary sweep (coverage counters; n log n)"""
+    evs = []
+    for side, L in ((0, A), (1, B)):
+        for t, d in L:
+            if d > 0:
+                evs.append((t, 0, side, 1))
+                evs.append((t + d, 0, side, -1))
+    evs.sort()
+    cov = [0, 0]
+    tot, prev = 0, None
+    for p, _, side, step in evs:
+        if prev is not None and cov[0] > 0 and cov[1] > 0:
+            tot += p - prev
+        cov[side] += step
+        prev = p
+    return tot
+
+
+def measure_common_cells(A, B):
+    """the same by testing every elementary cell against every interval (quadratic; cross-checked on small cases)"""
     pts = sorted({p for t, d in A + B for p in (t, t + d)})
     tot = 0
     for lo, hi in zip(pts, pts[1:]):
@@ -263,6 +346,42 @@ def closed_union(ivs):
     return [tuple(x) for x in out]
 
 
+def pieces_of_pairs(va, vb, force=None):
+    """([e∩f with e's id and data for every positively overlapping pair], [the zero-length e∩f of touching pairs]).
+    Small inputs: every pair is looked at.  Large inputs (a 10^4-event list on each side would be 10^8 pairs):
+    for each f only the e whose start lies in [start f - longest e, end f] (bisection on the sorted starts) - every
+    other e ends before f starts or starts after f ends.  Both routes are compared on the small cases of every run."""
+    expected, touching = [], []
+    indexed = force if force is not None else len(va) * len(vb) > 250_000
+    if not indexed:
+        for (i, t, d, x) in va:
+            for (_, t2, d2, _) in vb:
+                lo, hi = max(t, t2), min(t + d, t2 + d2)
+                if lo < hi:
+                    expected.append((i, lo, hi - lo, x))
+                elif lo == hi:
+                    touching.append((i, lo, 0, x))
+        return expected, touching
+    import bisect
+    sa = sorted(va, key=lambda e: e[1])
+    starts = [e[1] for e in sa]
+    longest = max([e[2] for e in sa] + [0])
+    for (_, t2, d2, _) in vb:
+        k0 = bisect.bisect_left(starts, min(t2, t2 + d2) - longest)
+        k1 = bisect.bisect_right(starts, max(t2, t2 + d2))
+        for (i, t, d, x) in sa[k0:k1]:
+            lo, hi = max(t, t2), min(t + d, t2 + d2)
+            if lo < hi:
+                expected.append((i, lo, hi - lo, x))
+            elif lo == hi:
+                touching.append((i, lo, 0, x))
+    return expected, touching
+
+
+def brief(lst, n=12):
+    return lst if len(lst) <= n else "%s ... (%d in all)" % (lst[:n], len(lst))
+
+
 def oracle_isect(va, vb, res, mod, labels):
     if mod:
         return "not-modified: " + mod
@@ -270,32 +389,25 @@ def oracle_isect(va, vb, res, mod, labels):
         return f"raises: error class {res[1]}"
     out = res[1]
     in_domain = wide_ok([(t, d) for _, t, d, _ in va]) and wide_ok([(t, d) for _, t, d, _ in vb])
-    expected = []
-    touching = []
-    for (i, t, d, x) in va:
-        for (_, t2, d2, _) in vb:
-            lo, hi = max(t, t2), min(t + d, t2 + d2)
-            if lo < hi:
-                expected.append((i, lo, hi - lo, x))
-            elif lo == hi:
-                touching.append((i, lo, 0, x))
+    expected, touching = pieces_of_pairs(va, vb)
     pos = [o for o in out if o[2] > 0]
     rest = [o for o in out if o[2] <= 0]
+    touching_s, expected_s, pos_s = set(touching), set(expected), set(pos)
     for o in rest:
         if o[2] < 0:
             return f"sound: piece of negative length {o}"
-        if in_domain and o not in touching:
+        if in_domain and o not in touching_s:
             return f"sound: zero-length piece {o} is not e∩f of any pair"
     for o in pos:
-        if o not in expected:
+        if o not in expected_s:
             return f"sound: piece {o} is not e∩f (with e's id and data) of any positively overlapping pair"
     if not in_domain:
         return None
     for p in expected:
-        if p not in pos:
-            return f"complete: overlapping pair's piece {p} missing from {out}"
+        if p not in pos_s:
+            return f"complete: overlapping pair's piece {p} missing from {brief(out)}"
     if sorted(pos, key=repr) != sorted(expected, key=repr):
-        return f"no-duplicate: pieces {pos} vs pairs {expected}"
+        return f"no-duplicate: pieces {brief(pos)} vs pairs {brief(expected)}"
     m = measure_common([(t, d) for _, t, d, _ in va], [(t, d) for _, t, d, _ in vb])
     if sum(o[2] for o in out) != m:
         return f"measure: total duration {sum(o[2] for o in out)} != common time {m}"
@@ -402,6 +514,8 @@ def main(argv=None):
     fpi = importlib.import_module("aw_transform.filter_period_intersect")   # the package re-exports a function of the same name
     from timeslot import Timeslot
     ck.coverage["timeslot_source"] = getattr(sys.modules["timeslot.timeslot"], "__file__", "?")
+    from . import c09_hist
+    hist_runner = c09_hist.make_runner(sys.modules[__name__])     # pristine snapshot: nothing of aw-core has been called yet
 
     ck.prove(extra_targets=EXTRA_TARGETS + ["Props/C09own.v"], gen_kernels=GEN_KERNELS)
     have_driver = ck.driver()
@@ -428,14 +542,21 @@ def main(argv=None):
 
     # ---- the two transforms
     n_rand = 2500 if ck.tier == "quick" else 100000
-    cases = itertools.chain(gen_grid(ck.rng, ck.tier), gen_random(ck.rng, n_rand))
+    cases = itertools.chain(gen_grid(ck.rng, ck.tier), gen_random(ck.rng, n_rand), gen_large(ck.rng))
     branch_rows = []
     for case in cases:
         kind, A, B = case[0], case[1], case[2]
         unaligned = len(case) > 3
         res, va, vb, mod = run_impl(case, Event, fpi, labels)
         ck.count(kind + ("-unaligned" if unaligned else ""))
-        ck.count("len=%d+%d" % (min(len(A), 4), min(len(B), 4)) if len(A) < 4 and len(B) < 4 else "len>=4")
+        ck.count("len=%d+%d" % (min(len(A), 4), min(len(B), 4)) if len(A) < 4 and len(B) < 4 else
+                 ("len>=4" if max(len(A), len(B)) <= 10_000 else "len>10000"))
+        if len(A) * len(B) <= 64:       # the fast forms of the oracle's helpers against their definitions
+            ia, ib = [(t, d) for _, t, d, _ in va], [(t, d) for _, t, d, _ in vb]
+            p1, p2 = pieces_of_pairs(va, vb, force=False), pieces_of_pairs(va, vb, force=True)
+            if wide_ok(ia) != wide_ok_pairwise(ia) or measure_common(ia, ib) != measure_common_cells(ia, ib) \
+                    or [sorted(x, key=repr) for x in p1] != [sorted(x, key=repr) for x in p2]:
+                raise AssertionError("harness bug: fast and defining forms of an oracle helper differ on %r" % (case,))
         rel = [kind, [(t - BASE, d, labels.label(x), i) for t, d, x, i in A],
                [(t - BASE, d, labels.label(x), i) for t, d, x, i in B]]
         bad = None
@@ -490,6 +611,10 @@ def main(argv=None):
                                   common.REPO, common.VERIF,
                                   json.dumps([small[0], [list(x) for x in small[1]], [list(x) for x in small[2]]]
                                              + list(small[3:])))})
+
+    # ---- histories: sequences of calls in one process on live objects (harness/c09_hist.py)
+    c09_hist.run(ck, hist_runner, labels, wire, checks, wire_events, canon_out, empty)
+    hist_runner.close()
 
     if have_driver:
         model = common.run_driver("C09", wire)
